@@ -272,6 +272,10 @@ class Translator:
             return f
         raise Refuse(f"assignment target {ast.dump(tgt)[:80]}")
 
+    @staticmethod
+    def cname(name):
+        return name.strip("_") if name.startswith("__") else name        # __getitem__ -> getitem_prog
+
     def bind_args(self, name, args):
         """statements binding the callee's parameters (positional arguments, then constant defaults).  Callee and caller share
         one local environment in MiniPy, so a caller with local variables of its own is refused."""
@@ -294,9 +298,9 @@ class Translator:
                 e = self.ex(defaults[p])
             else:
                 raise Refuse(f"self.{name}: parameter {p} not given")
-            if e != f"(ELocal {cq_str(p)})":                     # binding a parameter to itself is a no-op
-                out.append(f"(SAssign {cq_str(p)} {e})")
-        return out
+            if e != f"(ELocal {cq_str(p)})":                     # a parameter bound to the caller's variable of the same name: already visible
+                out.append(f"({cq_str(p)}, {e})")
+        return "[" + "; ".join(out) + "]"
 
     def st(self, n):
         if isinstance(n, ast.Expr) and isinstance(n.value, ast.Constant):
@@ -308,7 +312,7 @@ class Translator:
         if isinstance(n, ast.Return):
             if n.value is not None and self._self_call(n.value):                   # return self.<method>(args)
                 name, args = self._self_call(n.value)
-                return self.bind_args(name, args) + [f"(SCallRet {name}_prog)"]
+                return [f"(SCallRet {self.bind_args(name, args)} {self.cname(name)}_prog)"]
             if isinstance(n.value, ast.Name) and n.value.id == "self":
                 return ["(SReturn ESelf)"]
             return [f"(SReturn {self.ex(n.value) if n.value is not None else '(EConst VNone)'})"]
@@ -367,7 +371,7 @@ class Translator:
             if uc:
                 if uc[0] == "write_header" and not uc[1]:
                     return ["SUnmodelled"]
-                return self.bind_args(uc[0], uc[1]) + [f"(SCall {uc[0]}_prog)"]
+                return [f"(SCall {self.bind_args(uc[0], uc[1])} {self.cname(uc[0])}_prog)"]
             raise Refuse(f"call statement {ast.dump(n.value)[:100]}")
         if isinstance(n, ast.While) and not n.orelse and isinstance(n.test, ast.NamedExpr) and isinstance(n.test.target, ast.Name):
             x = self.ren.get(n.test.target.id, n.test.target.id)
